@@ -4,6 +4,7 @@ cd "$(dirname "$0")/.."
 ./setup.sh >/dev/null 2>&1 || { echo "setup failed"; exit 2; }
 rc=0
 for p in C01 C02 C03 C04 C05 C06 C07 C08 C09 C10 C11 C12 C13 C14 C15 C16 C17 C18 C19; do
-  ./check $p "$1" 2>&1 | tail -2 || rc=1
+  out=$(./check $p "$1" 2>&1) || rc=1
+  echo "$out" | tail -2
 done
 exit $rc
